@@ -54,6 +54,7 @@ type D struct {
 	ID   int64 `graphql:"id,key"`
 	Tags []string
 }
+
 // F shares its key space with A (as auto-increment ids of two tables do), so
 // a union value can switch from an A to an F with the same __key.
 type F struct {
@@ -77,25 +78,26 @@ type ref struct {
 // that is unique per (object, field, args), so a mis-paired
 // source/destination is visible.
 type world struct {
-	c      *runner.Ctx
-	nA     int
-	nB     int
-	nC     int
-	as     []*A
-	bs     []*B
-	cs     []*C
-	aB     []int   // A.b: index into bs or -1
-	aBs    [][]int // A.bs: indices, -1 = nil entry; nil slice = nil list
-	aU     []ref   // A.u
-	bA     []int   // B.a
-	bCs    [][]int // B.cs
-	rootAs []int
-	rootUs []ref
-	rootU1 ref
-	rootBs []int
-	ds     []D
-	rootDs []int
-	fs     []*F
+	counterRuns int // executions of the bumpN mutation resolver
+	c           *runner.Ctx
+	nA          int
+	nB          int
+	nC          int
+	as          []*A
+	bs          []*B
+	cs          []*C
+	aB          []int   // A.b: index into bs or -1
+	aBs         [][]int // A.bs: indices, -1 = nil entry; nil slice = nil list
+	aU          []ref   // A.u
+	bA          []int   // B.a
+	bCs         [][]int // B.cs
+	rootAs      []int
+	rootUs      []ref
+	rootU1      ref
+	rootBs      []int
+	ds          []D
+	rootDs      []int
+	fs          []*F
 
 	// fault plan (C16): failing (field, object id) instances
 	fail map[string]failure
@@ -399,6 +401,17 @@ func (w *world) build(withMutation bool) (*graphql.Schema, error) {
 		s.Mutation().FieldFunc("bump", func(ctx context.Context) (string, error) {
 			simrt.Yield()
 			return w.live.mutate(), nil
+		})
+		// bumpN reads the counter it then writes (a reactive read-modify-write):
+		// its own write invalidates its own dependency. It must still run once.
+		s.Mutation().FieldFunc("bumpN", func(ctx context.Context) (int64, error) {
+			if err := w.live.dep(ctx, "M.counter", 0); err != nil {
+				return 0, err
+			}
+			simrt.Yield()
+			w.counterRuns++
+			w.live.invalidate("M.counter/0")
+			return int64(w.counterRuns), nil
 		})
 		s.Mutation().FieldFunc("fail", func(ctx context.Context, args struct{ Kind int64 }) (string, error) {
 			simrt.Yield()
